@@ -3,7 +3,13 @@
 //! `FileAppender::builder().build`, `RollingFileAppender::builder().build` and
 //! `FixedWindowRoller::roll` (observation = which files exist afterwards), each of them both through
 //! the builder API and through a configuration FILE (`load_config_file` + `Logger::new` + one record
-//! per roll): kinds `file-cfg`, `rolling-cfg`, `roller-cfg`.
+//! per roll): kinds `file-cfg`, `rolling-cfg`, `roller-cfg`. The two rolling kinds run a HISTORY
+//! (size trigger limit 2, one byte per record, fixed-window roller count 2 or delete roller) and
+//! observe after build and after every append which files exist, their content, and which file the
+//! process holds open (`/proc/self/fd`).
+//!
+//! The environment may hold variables that are not valid Unicode (entries `b:<name>;<value>` as
+//! bytes): bystanders the path never names, and referenced variables with a non-UTF-8 value.
 //!
 //! The process environment is controlled: at the first case every inherited variable is removed,
 //! and around each case exactly the variables the case carries are installed and removed again
@@ -17,6 +23,10 @@ use log4rs::append::rolling_file::policy::compound::{
     CompoundPolicy,
 };
 use log4rs::append::rolling_file::RollingFileAppender;
+use log4rs::append::Append;
+use log4rs::encode::pattern::PatternEncoder;
+use std::ffi::OsString;
+use std::os::unix::ffi::OsStringExt;
 use log4rs::config::{load_config_file, Deserializers};
 use std::path::{Path, PathBuf};
 use std::sync::atomic::{AtomicUsize, Ordering};
@@ -261,6 +271,49 @@ fn gen_path(rng: &mut Rng, env: &mut Vec<(String, String)>, max_tokens: u64, fs:
     s
 }
 
+/// string entries plus byte entries (`b:<hex>;<hex>`)
+fn enc_env2(env: &[(String, String)], foreign: &[(Vec<u8>, Vec<u8>)]) -> String {
+    let mut items: Vec<String> = env.iter().map(|(k, v)| format!("{};{}", enc_str(k), enc_str(v))).collect();
+    items.extend(foreign.iter().map(|(k, v)| format!("b:{};{}", enc_bytes(k), enc_bytes(v))));
+    enc_list(",", &items)
+}
+
+const BYSTANDERS: &[(&[u8], &[u8])] = &[
+    (b"VP_BY_LATIN1", b"caf\xe9"),
+    (b"VP_BY_\xff\xfe", b"x"),
+    (b"VP_BY_\xe9t\xe9", b"\xc3\x28"),
+    (b"VP_BY_TRUNC", b"\xe4\xb8"),
+    (b"VP_BY_SURR", b"\xed\xa0\x80"),
+    (b"VP_BY_OK", b"plain"),
+    (b"\x80", b""),
+];
+const BAD_VALUES: &[&[u8]] = &[b"caf\xe9", b"\xff", b"v\xc3", b"\xed\xa0\x80x", b"d/\xe9"];
+
+/// bystanders (never named by the path) and, sometimes, a REFERENCED variable whose value is not
+/// valid Unicode: `std::env::var` answers `Err(NotUnicode)`, the reference must stay as written
+fn gen_foreign(rng: &mut Rng, env: &[(String, String)], body: &mut String) -> Vec<(Vec<u8>, Vec<u8>)> {
+    let mut foreign: Vec<(Vec<u8>, Vec<u8>)> = Vec::new();
+    if rng.chance(1, 4) {
+        for _ in 0..rng.range(1, 2) {
+            let (k, v) = *rng.pick(BYSTANDERS);
+            if !foreign.iter().any(|e| e.0 == k) {
+                foreign.push((k.to_vec(), v.to_vec()));
+            }
+        }
+    }
+    if rng.chance(1, 10) {
+        let n = unset_name(rng, env);
+        let v = *rng.pick(BAD_VALUES);
+        foreign.push((n.as_bytes().to_vec(), v.to_vec()));
+        if rng.chance(1, 2) {
+            body.push_str(&format!("$ENV{{{}}}", n));
+        } else {
+            *body = format!("$ENV{{{}}}{}", n, body);
+        }
+    }
+    foreign
+}
+
 fn enc_env(env: &[(String, String)]) -> String {
     enc_list(",", &env.iter().map(|(k, v)| format!("{};{}", enc_str(k), enc_str(v))).collect::<Vec<_>>())
 }
@@ -306,13 +359,54 @@ pub fn gen(rng: &mut Rng, n: usize, thorough: bool, emit: &mut dyn FnMut(String)
             ("VP_TAIL".to_owned(), "ENV{T}".to_owned()),
         ];
         for body in ["$ENV{$ENV{W}}", "$$ENV{VP_TAIL}", "d/$ENV{$ENV{W}}/$$ENV{VP_TAIL}"] {
-            for kind in ["file", "file-cfg", "rolling", "rolling-cfg"] {
+            for kind in ["file", "file-cfg"] {
                 emit(format!("{}\t{}\t{}", kind, enc_env(&env), enc_str(&format!("p{}q.log", body))));
+            }
+            for kind in ["rolling", "rolling-cfg"] {
+                for roller in ["fw", "del"] {
+                    emit(format!("{}\t{}\t{}\t{}\t8", kind, enc_env(&env), enc_str(&format!("p{}q.log", body)), roller));
+                }
             }
             for kind in ["roller", "roller-cfg"] {
                 emit(format!("{}\t{}\t{}\t0\t2\t3", kind, enc_env(&env), enc_str(&format!("p{}q.{{}}", body))));
             }
             emit(format!("hook\t{}\t{}", enc_env(&env), enc_str(body)));
+        }
+    }
+    // a foreign environment once for every kind: bystanders that are not valid Unicode, and a
+    // referenced variable whose value is not valid Unicode (stays as written)
+    {
+        let env = vec![("A".to_owned(), "v".to_owned())];
+        let foreign: Vec<(Vec<u8>, Vec<u8>)> = vec![
+            (b"VP_BY_LATIN1".to_vec(), b"caf\xe9".to_vec()),
+            (b"VP_BY_\xff".to_vec(), b"x".to_vec()),
+            (b"B".to_vec(), b"caf\xe9".to_vec()),
+        ];
+        let e = enc_env2(&env, &foreign);
+        for body in ["$ENV{A}", "$ENV{U}", "$ENV{B}", "x$ENV{A}$ENV{B}y", "no-reference", "$ENV{"] {
+            emit(format!("hook\t{}\t{}", e, enc_str(body)));
+            for kind in ["file", "file-cfg"] {
+                emit(format!("{}\t{}\t{}", kind, e, enc_str(&format!("p{}q.log", body))));
+            }
+            for kind in ["rolling", "rolling-cfg"] {
+                emit(format!("{}\t{}\t{}\tfw\t7", kind, e, enc_str(&format!("p{}q.log", body))));
+            }
+            for kind in ["roller", "roller-cfg"] {
+                emit(format!("{}\t{}\t{}\t0\t2\t2", kind, e, enc_str(&format!("p{}q.{{}}", body))));
+            }
+        }
+    }
+    // rolling histories with the reference in a directory component and in the file name
+    {
+        let env = vec![("A".to_owned(), "v".to_owned()), ("VP_LOG.DIR".to_owned(), "d/e".to_owned())];
+        for path in ["$ENV{A}.log", "$ENV{VP_LOG.DIR}/app.log", "logs/$ENV{A}/$ENV{U}/a$ENV{A}.log", "plain.log"] {
+            for kind in ["rolling", "rolling-cfg"] {
+                for roller in ["fw", "del"] {
+                    for appends in [0, 2, 3, 4, 6, 9] {
+                        emit(format!("{}\t{}\t{}\t{}\t{}", kind, enc_env(&env), enc_str(path), roller, appends));
+                    }
+                }
+            }
         }
     }
     for i in 0..n {
@@ -331,10 +425,16 @@ pub fn gen(rng: &mut Rng, n: usize, thorough: bool, emit: &mut dyn FnMut(String)
                 body = format!("{}{}", extra, body);
             }
         }
+        let foreign = gen_foreign(rng, &env, &mut body);
+        let e = enc_env2(&env, &foreign);
         match kind {
-            "hook" => emit(format!("hook\t{}\t{}", enc_env(&env), enc_str(&body))),
-            "file" | "rolling" | "file-cfg" | "rolling-cfg" => {
-                emit(format!("{}\t{}\t{}", kind, enc_env(&env), enc_str(&format!("p{}q.log", body))))
+            "hook" => emit(format!("hook\t{}\t{}", e, enc_str(&body))),
+            "file" | "file-cfg" => emit(format!("{}\t{}\t{}", kind, e, enc_str(&format!("p{}q.log", body)))),
+            "rolling" | "rolling-cfg" => {
+                // enough appends for two rolls (three one-byte records each) and some more
+                let roller = if rng.chance(1, 2) { "fw" } else { "del" };
+                let appends = *rng.pick(&[7u64, 8, 8, 9, 9, 4, 6]);
+                emit(format!("{}\t{}\t{}\t{}\t{}", kind, e, enc_str(&format!("p{}q.log", body)), roller, appends))
             }
             _ => {
                 let base = *rng.pick(&[0u64, 0, 1, 7]);
@@ -346,7 +446,7 @@ pub fn gen(rng: &mut Rng, n: usize, thorough: bool, emit: &mut dyn FnMut(String)
                     2 => format!("d{{}}/p{}q", body),
                     _ => format!("p{}$ENV{{A{{}}}}q.{{}}", body),
                 };
-                emit(format!("{}\t{}\t{}\t{}\t{}\t{}", kind, enc_env(&env), enc_str(&pat), base, count, rolls));
+                emit(format!("{}\t{}\t{}\t{}\t{}\t{}", kind, e, enc_str(&pat), base, count, rolls));
             }
         }
     }
@@ -374,14 +474,22 @@ fn init() -> &'static PathBuf {
     })
 }
 
-fn dec_env(s: &str) -> Option<Vec<(String, String)>> {
+fn dec_env(s: &str) -> Option<Vec<(OsString, OsString)>> {
     dec_list(',', s)
         .iter()
         .map(|e| {
-            let mut it = e.split(';');
-            match (it.next(), it.next(), it.next()) {
-                (Some(k), Some(v), None) => Some((dec_str(k)?, dec_str(v)?)),
-                _ => None,
+            if let Some(rest) = e.strip_prefix("b:") {
+                let mut it = rest.split(';');
+                match (it.next(), it.next(), it.next()) {
+                    (Some(k), Some(v), None) => Some((OsString::from_vec(dec_bytes(k)?), OsString::from_vec(dec_bytes(v)?))),
+                    _ => None,
+                }
+            } else {
+                let mut it = e.split(';');
+                match (it.next(), it.next(), it.next()) {
+                    (Some(k), Some(v), None) => Some((OsString::from(dec_str(k)?), OsString::from(dec_str(v)?))),
+                    _ => None,
+                }
             }
         })
         .collect()
@@ -481,6 +589,73 @@ fn run_config(cfg: &Path, yaml: &str, records: u32) -> Result<(), String> {
     Ok(())
 }
 
+fn content_text(c: &[u8]) -> String {
+    if c.is_empty() {
+        "_".to_owned()
+    } else if c.iter().all(|b| b.is_ascii_digit()) {
+        String::from_utf8_lossy(c).into_owned()
+    } else {
+        format!("x{}", enc_bytes(c))
+    }
+}
+
+/// files below `dir` the process currently holds open
+fn open_files_under(dir: &Path) -> Vec<String> {
+    let mut out = Vec::new();
+    if let Ok(rd) = std::fs::read_dir("/proc/self/fd") {
+        for e in rd.filter_map(|e| e.ok()) {
+            if let Ok(target) = std::fs::read_link(e.path()) {
+                if let Ok(rel) = target.strip_prefix(dir) {
+                    out.push(rel.to_string_lossy().into_owned());
+                }
+            }
+        }
+    }
+    out.sort();
+    out
+}
+
+/// one step of a history: `<file>=<content>,…;open=<file held open|->`
+fn snapshot(dir: &Path) -> String {
+    let mut files = Vec::new();
+    list_files(dir, "", &mut files);
+    let mut items: Vec<String> = files.iter().map(|(p, c)| format!("{}={}", enc_str(p), content_text(c))).collect();
+    items.sort();
+    let open = open_files_under(dir);
+    format!(
+        "{};open={}",
+        enc_list(",", &items),
+        if open.is_empty() { "-".to_owned() } else { open.iter().map(|p| enc_str(p)).collect::<Vec<_>>().join("+") }
+    )
+}
+
+/// like `in_scratch`, but the closure produces the observation itself; it gets the configuration
+/// file path and the (canonical) scratch directory it runs in
+fn in_scratch_obs(f: impl FnOnce(&Path, &Path) -> Result<String, String> + std::panic::UnwindSafe) -> String {
+    let root = init();
+    let n = COUNTER.fetch_add(1, Ordering::SeqCst);
+    let dir = root.join(format!("c19_{}_{}", std::process::id(), n));
+    let cfg = root.join(format!("c19_{}_{}.yaml", std::process::id(), n));
+    if std::fs::create_dir_all(&dir).is_err() || std::env::set_current_dir(&dir).is_err() {
+        return "scratch-error".to_owned();
+    }
+    let canon = std::fs::canonicalize(&dir).unwrap_or_else(|_| dir.clone());
+    let cfg2 = cfg.clone();
+    let r = guarded(move || f(&cfg2, &canon));
+    let _ = std::env::set_current_dir(root);
+    let _ = std::fs::remove_dir_all(&dir);
+    let _ = std::fs::remove_file(&cfg);
+    match r {
+        Err(_) => "PANIC".to_owned(),
+        Ok(Err(_)) => "err".to_owned(),
+        Ok(Ok(obs)) => obs,
+    }
+}
+
+fn digit_record(k: u32, f: &mut dyn FnMut(&log::Record)) {
+    f(&log::Record::builder().level(log::Level::Info).target("c19").args(format_args!("{}", k % 10)).build());
+}
+
 pub fn exec(fields: &[&str]) -> String {
     init();
     if fields.len() < 3 {
@@ -491,8 +666,14 @@ pub fn exec(fields: &[&str]) -> String {
         (Some(e), Some(p)) => (e, p),
         _ => return "bad-case".to_owned(),
     };
-    if env.iter().any(|(k, v)| k.is_empty() || k.contains('=') || k.contains('\0') || v.contains('\0')) {
-        return "bad-case".to_owned();
+    {
+        use std::os::unix::ffi::OsStrExt;
+        if env.iter().any(|(k, v)| {
+            let (k, v) = (k.as_bytes(), v.as_bytes());
+            k.is_empty() || k.contains(&b'=') || k.contains(&0) || v.contains(&0)
+        }) {
+            return "bad-case".to_owned();
+        }
     }
     // first entry wins, as in the model's association list
     for (k, v) in env.iter().rev() {
@@ -517,28 +698,66 @@ pub fn exec(fields: &[&str]) -> String {
                 Content::None,
             )
         }
-        ("rolling", 3) => {
+        ("rolling", 3) | ("rolling", 5) | ("rolling-cfg", 3) | ("rolling-cfg", 5) => {
+            let (fw, appends) = if fields.len() == 5 {
+                match (fields[3], fields[4].parse::<u32>().ok()) {
+                    ("fw", Some(a)) if a <= 10 => (true, a),
+                    ("del", Some(a)) if a <= 10 => (false, a),
+                    _ => return "bad-case".to_owned(),
+                }
+            } else {
+                (true, 8)
+            };
             let p = path.clone();
-            in_scratch(
-                move |_| {
-                    let policy = CompoundPolicy::new(Box::new(SizeTrigger::new(1 << 30)), Box::new(DeleteRoller::new()));
-                    let a = RollingFileAppender::builder().build(&p, Box::new(policy)).map_err(|e| e.to_string())?;
+            if kind == "rolling" {
+                in_scratch_obs(move |_, dir| {
+                    let roller: Box<dyn Roll> = if fw {
+                        Box::new(FixedWindowRoller::builder().build("r.{}.log", 2).map_err(|e| e.to_string())?)
+                    } else {
+                        Box::new(DeleteRoller::new())
+                    };
+                    let policy = CompoundPolicy::new(Box::new(SizeTrigger::new(2)), roller);
+                    let a = RollingFileAppender::builder()
+                        .encoder(Box::new(PatternEncoder::new("{m}")))
+                        .build(&p, Box::new(policy))
+                        .map_err(|e| e.to_string())?;
+                    let mut steps = vec![snapshot(dir)];
+                    for k in 0..appends {
+                        digit_record(k, &mut |r| {
+                            let _ = a.append(r);
+                        });
+                        steps.push(snapshot(dir));
+                    }
                     drop(a);
-                    Ok(())
-                },
-                Content::None,
-            )
+                    Ok(format!("hist:{}", steps.join("|")))
+                })
+            } else {
+                let roller = if fw {
+                    "        kind: fixed_window\n        pattern: \"r.{}.log\"\n        count: 2\n"
+                } else {
+                    "        kind: delete\n"
+                };
+                let yaml = format!(
+                    "appenders:\n  out:\n    kind: rolling_file\n    path: {}\n    encoder:\n      pattern: \"{{m}}\"\n    policy:\n      kind: compound\n      trigger:\n        kind: size\n        limit: 2\n      roller:\n{}root:\n  level: info\n  appenders: [out]\n",
+                    yaml_str(&p), roller
+                );
+                in_scratch_obs(move |cfg, dir| {
+                    std::fs::write(cfg, &yaml).map_err(|e| e.to_string())?;
+                    let config = load_config_file(cfg, Deserializers::default()).map_err(|e| e.to_string())?;
+                    let logger = log4rs::Logger::new(config);
+                    let mut steps = vec![snapshot(dir)];
+                    for k in 0..appends {
+                        digit_record(k, &mut |r| log::Log::log(&logger, r));
+                        steps.push(snapshot(dir));
+                    }
+                    drop(logger);
+                    Ok(format!("hist:{}", steps.join("|")))
+                })
+            }
         }
         ("file-cfg", 3) => {
             let yaml = format!(
                 "appenders:\n  out:\n    kind: file\n    path: {}\n    encoder:\n      pattern: \"{{m}}\"\nroot:\n  level: info\n  appenders: [out]\n",
-                yaml_str(&path)
-            );
-            in_scratch(move |cfg| run_config(cfg, &yaml, 1), Content::None)
-        }
-        ("rolling-cfg", 3) => {
-            let yaml = format!(
-                "appenders:\n  out:\n    kind: rolling_file\n    path: {}\n    encoder:\n      pattern: \"{{m}}\"\n    policy:\n      kind: compound\n      trigger:\n        kind: size\n        limit: 1 gb\n      roller:\n        kind: delete\nroot:\n  level: info\n  appenders: [out]\n",
                 yaml_str(&path)
             );
             in_scratch(move |cfg| run_config(cfg, &yaml, 1), Content::None)
